@@ -151,6 +151,19 @@ async def _scenario(sc):
             idx = len(cb_calls)
             cb_calls.append((progress, total, message))
             if idx in cb_raise:
+                # what a failing callback raises is the application's business: a plain error, a lookup error, a timeout of
+                # its own, or - a callback that forwards the update with a nested send_message - one of the LIBRARY's exceptions
+                kind = sc.get("cb_exc") or "runtime"
+                if kind == "lib-cancelled":
+                    raise sm.CancelledError("Request nested-by-the-callback was cancelled")
+                if kind == "lib-retryable":
+                    raise sm.RetryableError("nested failure", -32000)
+                if kind == "lib-nonretryable":
+                    raise sm.NonRetryableError("nested failure", -32601)
+                if kind == "timeout":
+                    raise TimeoutError("nested request timed out")
+                if kind == "keyerror":
+                    raise KeyError("k")
                 raise RuntimeError("callback failure injected by the harness")
 
         # the callback handed to the library: an `async def`, or another callable of the documented type
@@ -538,6 +551,7 @@ def scenario_case(sc):
             **({"closed_before_call": True} if sc.get("closed_before_call") else {}),
             **({"idle_token": True} if sc.get("idle_token") else {}),
             **({"cb_shape": sc["cb_shape"]} if sc.get("cb_shape") else {}),
+            **({"cb_exc": sc["cb_exc"]} if sc.get("cb_exc") else {}),
             "arrivals": [[t, list(m)] for t, m in sc["arrivals"]]}
 
 
